@@ -49,7 +49,7 @@ impl IdealGas for CpIdealGas {
 // tolerances of the with/without-guess comparisons (relative; see notes/C12.md)
 const TOL_PURE: f64 = 1e-9; // pure_t / pure_p stop at |dp| < 1e-12 p resp. |dT| < 1e-12 T; densities follow by one Newton step
 const TOL_BD: f64 = 1e-7; // bubble/dew: ||(dmu, dp)|| < 1e-10 (Newton) in reduced units
-const TOL_FLASH: f64 = 1e-6; // tp_flash: ||ln K update|| < 1e-8
+const TOL_FLASH: f64 = 1e-6; // tp_flash: ||ln K update|| < 1e-8; plus 1e-8 / (relative width of the envelope), see flash_tol
 const TOL_STATE: f64 = 1e-9; // density iteration / newton on T: 1e-8 K resp. relative 1e-10..1e-12
 
 fn err_kind(e: &EosError) -> String {
@@ -63,6 +63,12 @@ fn guard<T>(f: impl FnOnce() -> Result<T, EosError>) -> Result<T, String> {
         Ok(Err(e)) => Err(err_kind(&e)),
         Err(_) => Err("panic".into()),
     }
+}
+
+/// the flash stops on a 1e-8 change of ln K; in a narrow envelope (near an azeotrope) the phase compositions are
+/// ill-conditioned by the inverse relative width of the envelope
+fn flash_tol(pb: f64, pd: f64) -> f64 {
+    TOL_FLASH + 1e-8 * pb / (pb - pd).abs().max(1e-300)
 }
 
 fn opts2() -> (SolverOptions, SolverOptions) {
@@ -1125,7 +1131,7 @@ fn main() {
                     let alone = guard(|| PhaseEquilibrium::tp_flash(&sys.eos, Temperature::from_reduced(t), Pressure::from_reduced(p), &feed, None, SolverOptions::default(), None));
                     let key = json!({"system": sys.name, "driver": "PhaseDiagram::lle", "T": t, "z1": z1, "point": k, "p": p, "p_lo": lo, "p_hi": hi, "npoints": case.info["npoints"]});
                     match dia.states.iter().find(|s| match_state(Kind::Flash, std::slice::from_ref(c), s) == 0) {
-                        Some(s) => st.cmp("PhaseDiagram::lle state vs stand-alone tp_flash(T, p, feed, None)", key, &Ok(vle_vec(s)), &vv(&alone), TOL_FLASH),
+                        Some(s) => st.cmp("PhaseDiagram::lle state vs stand-alone tp_flash(T, p, feed, None)", key, &Ok(vle_vec(s)), &vv(&alone), flash_tol(pb, pd)),
                         None => {
                             if let Ok(a) = &alone {
                                 // tp_flash falls back to the stability-based start unless update_pressure of the guess fails
@@ -1216,7 +1222,7 @@ fn main() {
                         let with = flash(t, p, Some(&g));
                         let evs = verif_trace_take();
                         let key = json!({"system": sys.name, "T": t, "p": p, "z1": z1, "p_guess": pg, "p_dew": pd, "p_bubble": pb});
-                        st.cmp("tp_flash(T, p, feed, Some(flash at p_g))", key.clone(), &vv(&with), &vv(&alone), TOL_FLASH);
+                        st.cmp("tp_flash(T, p, feed, Some(flash at p_g))", key.clone(), &vv(&with), &vv(&alone), flash_tol(pb, pd));
                         if let Some(c) = parse_calls(&evs, "tp_flash").pop() {
                             if c.log.first() == Some(&(0, 0)) && alone.is_ok() {
                                 dropped.push(json!({"key": key, "log": c.log.iter().map(|(a, b)| vec![*a, *b]).collect::<Vec<_>>(),
